@@ -109,8 +109,32 @@ def biased_grammar(r):
     return [gast.call('cmd', e)]
 
 
+def long_sequence_texts(r, n):
+    """Plain long word sequences over 2-3 literals (long chains with many equal input symbols), some with an
+    alternative second chain or an optional tail."""
+    for _ in range(n):
+        k = r.random()
+        if k < 0.35:
+            length = r.randint(10, 13)
+            alpha = 'ab'
+        else:
+            length = r.randint(8, 12)
+            alpha = 'abc'
+        seq1 = ' '.join(r.choice(alpha) for _ in range(length))
+        if k > 0.85:
+            seq2 = ' '.join(r.choice(alpha) for _ in range(r.randint(4, 9)))
+            yield 'cmd %s | %s;' % (seq1, seq2)
+        elif k > 0.75:
+            cut = r.randint(3, length - 2) * 2
+            yield 'cmd %s [%s];' % (seq1[:cut].strip(), seq1[cut:].strip() or 'a')
+        else:
+            yield 'cmd %s;' % seq1
+
+
 def make_jobs(tier, seed):
     jobs = [('fixed',)]
+    for i in range(16 if tier == 'quick' else 64):
+        jobs.append(('longseq', seed * 1000003 + 900 + i, 500 if tier == 'quick' else 2500))
     n = 5 if tier == 'quick' else 6
     for s in range(NSHARDS):
         jobs.append(('exh', n, s))
@@ -187,6 +211,10 @@ def run_job(job, acc):
         if job[0] == 'fixed':
             for t in BIAS:
                 check_text(P, t, 'bash', acc, 'fixed list')
+        elif job[0] == 'longseq':
+            r = random.Random(job[1])
+            for t in long_sequence_texts(r, job[2]):
+                check_text(P, t, 'bash', acc, 'long sequence seed=%d' % job[1])
         elif job[0] == 'exh':
             _, n, shard = job
             for stmts in common.exhaustive_grammars(n, shard, NSHARDS):
